@@ -127,6 +127,7 @@ def gen_history(rng, hid, confirm=False):
         b = rng.choice(h["batches"][1:])
         b["dt_unit"] = {c["name"]: rng.choice([u for u in ("ms", "us", "ns") if u != c["kind"].split("_")[1]]) for c in dtcols}
         b["dt_whole_us"] = rng.random() < 0.5
+        b["dt_limits"] = rng.choice([None, "inside", "inside", "beyond"])
     if not h["index"] and not confirm and rng.random() < 0.3:
         # from this step on EVERY append of the history goes through ONE long-lived ParquetFile handle (pf.write_row_groups), which is
         # also read after each of them: state the handle keeps about the dataset has to follow what it wrote itself
@@ -189,6 +190,15 @@ def build_batch(h, i):
             col = F.col_values(cs, n)
             if c["name"] in (b.get("dt_unit") or {}) and b.get("dt_whole_us") and cs["kind"].endswith("_ns"):
                 col = col.dt.floor("us")
+            if c["name"] in (b.get("dt_unit") or {}) and b.get("dt_limits") and cs["kind"].startswith("dt_") and n >= 2:
+                # the limits of the nanosecond range in this unit and (coarser units) dates beyond it: accepted => intact, else refused
+                u = cs["kind"].split("_")[1]
+                arr = col.values.copy()
+                lim = ["2262-04-11T23:47:16", "1677-09-21T00:12:44"] if b["dt_limits"] == "inside" else ["9999-12-31T00:00:00", "1000-01-01T00:00:00"]
+                if u == "ns" and b["dt_limits"] != "inside":
+                    lim = ["2262-04-11T23:47:16", "1677-09-21T00:12:44"]
+                arr[0], arr[n - 1] = np.datetime64(lim[0], u), np.datetime64(lim[1], u)
+                col = pd.Series(arr, name=c["name"])
             data[c["name"]] = col
     prng = random.Random(b["pseed"])
     if "pk" in h["partition_on"]:
